@@ -306,6 +306,34 @@ pub fn odd_tokens() -> Vec<String> {
     ["0000", "00000", "(none)", "none", "null", "pass", "--", "@@@@", "e2", "e2e", "O-O", "O-O-O", "0-0", "0-0-0", "e2-e4", "e2xe4", "Ng1f3", "g1f3+", "e2e4e5", "e2e4=q", "E2E4", "A7A8Q", "\u{e9}2e4", "e2e4\u{e9}", "e2e4\u{2654}", "a0a1", "a1a9", "i1a1", "a1i1"].iter().map(|s| s.to_string()).collect()
 }
 
+/// (f) squares just off the board: a file character from '`' to 'p' (one before 'a' up to eight past 'h', so that an
+/// index that is only range-checked after flattening - file + 8 * rank - wraps into a real square) or a rank digit 0 / 9,
+/// paired with every real square in either role. None of these strings names a move.
+pub fn off_board_strings() -> Vec<String> {
+    let mut off: Vec<String> = vec![];
+    for f in b'`'..=b'p' {
+        for r in b'0'..=b'9' {
+            let real_file = (b'a'..=b'h').contains(&f);
+            let real_rank = (b'1'..=b'8').contains(&r);
+            if real_file && real_rank {
+                continue;
+            }
+            if !real_file && !real_rank {
+                continue;
+            }
+            off.push(format!("{}{}", f as char, r as char));
+        }
+    }
+    let mut v = Vec::with_capacity(off.len() * 128);
+    for o in &off {
+        for s in 0..64u8 {
+            v.push(format!("{}{}", o, sq_name(s)));
+            v.push(format!("{}{}", sq_name(s), o));
+        }
+    }
+    v
+}
+
 /// (d) two `position` commands in a row (and with a search in between): the second one must be honoured as if it
 /// were the first command of the session, whatever the first one was - a longer game from the same start (the GUI
 /// takes moves back), a shorter one, a sibling line, another start position. Every ordered pair over the items
@@ -388,6 +416,7 @@ pub fn run(tier: &str, seed: i64) -> Outcome {
     // (b)
     let strings = alphabet();
     let odd = odd_tokens();
+    let offb = off_board_strings();
     let q = tier == "quick";
     let spaces_b = vec![
         Space::slice(Universe::UE { extras: 0, capturer_files: None, slider_only: false }, if q { 256 } else { 16 }, off),
@@ -414,6 +443,7 @@ pub fn run(tier: &str, seed: i64) -> Outcome {
         acc.count("(b) states in which the complete 28672-string alphabet was tried");
         alphabet_in_state(p, &strings, acc);
         alphabet_in_state(p, &odd, acc);
+        alphabet_in_state(p, &offb, acc);
         if acc.samples.is_empty() {
             acc.sample(json::obj(vec![("state", json::s(p.fen6(false))), ("strings", json::s("all 64x64 from/to pairs x {'',q,r,b,n,k,p} through `position fen <state> moves <s>`; `show`; `isready`")), ("legal", json::strs(&p.legal_uci_sorted()))]));
         }
@@ -443,7 +473,7 @@ pub fn run(tier: &str, seed: i64) -> Outcome {
         reports.push(r);
     }
     reports.push(rep_d);
-    let mut out = Outcome::new(acc, reports, "(a) every legal move of every state of the core spaces: text shape, agreement with the model's text, pairwise distinct, from_uci_notation(text) == move. (b) in every listed state the complete alphabet of 64x64x7 move-shaped strings goes through the real `position fen .. moves s` + `show` (uci_talk on scripted stdin): accepted <=> legal, shown position == model successor, rejected => error line and the position before or no game. (c) bad-after-good and good-after-bad command sequences. (d) every ordered pair of position commands over a set of games from two starts, with and without a search in between: the second is honoured as if it were the first. (e) 29 strings that are not move-shaped (null move, other notations, truncated, upper-case, multi-byte) in every state of (b): refused");
+    let mut out = Outcome::new(acc, reports, "(a) every legal move of every state of the core spaces: text shape, agreement with the model's text, pairwise distinct, from_uci_notation(text) == move. (b) in every listed state the complete alphabet of 64x64x7 move-shaped strings goes through the real `position fen .. moves s` + `show` (uci_talk on scripted stdin): accepted <=> legal, shown position == model successor, rejected => error line and the position before or no game. (c) bad-after-good and good-after-bad command sequences. (d) every ordered pair of position commands over a set of games from two starts, with and without a search in between: the second is honoured as if it were the first. (e) 29 strings that are not move-shaped (null move, other notations, truncated, upper-case, multi-byte) in every state of (b): refused. (f) every string made of one real square and one square just off the board (file characters '`'..'p', rank digits 0 and 9), in either order, in every state of (b): refused");
     out.traces_validated = out.acc.transitions;
     out.assumptions = vec!["the alphabet is the quantifier's: two squares plus an optional lower-case letter, plus 29 strings that are not move-shaped at all; an upper-case promotion letter and characters after a complete promotion text are accepted by the engine's reader by design and are outside the quantifier".into(), "(b) runs in a fixed-stride subset of the en-passant, castling, promotion and king universes plus all positions one ply from four roots (strides in the space names)".into()];
     out
